@@ -46,7 +46,7 @@ $(B)/bxsim-$(1): $$(SUTOBJ_$(1)) $$(SIMOBJ_$(1))
 	@$(CXX) $$(SAN_$(1)) -pthread -o $$@.tmp $$^ $$(LINK_$(1)) -lgsl -lgslcblas -ldl && mv $$@.tmp $$@
 $(B)/$(1)/sim/%.o: $(V)/sim/%.cc $(V)/Makefile
 	@mkdir -p $$(dir $$@)
-	@$(CXX) -std=c++17 $$(OPT_$(1)) $$(if $$(filter %/sched.cc,$$<),$$(filter-out -fsanitize=thread,$$(SAN_$(1))),$$(SAN_$(1))) $(COMMON) $(SUT_INC) -I$(REPO)/programs -DSIM_FLAVOUR_$(1)=1 -DSIM_FLAVOUR_NAME='"$(1)"' -c $$< -o $$@
+	@$(CXX) -std=c++17 $$(OPT_$(1)) $$(if $$(filter %/sched.cc,$$<),$$(filter-out -fsanitize=thread,$$(SAN_$(1))),$$(SAN_$(1))) $(COMMON) $(SUT_INC) $(SUT_DEF) -I$(REPO)/programs -DSIM_FLAVOUR_$(1)=1 -DSIM_FLAVOUR_NAME='"$(1)"' -c $$< -o $$@
 -include $$(SUTOBJ_$(1):.o=.d) $$(SIMOBJ_$(1):.o=.d)
 endef
 $(foreach f,$(FLAVOURS),$(eval $(call FLAVOUR_RULES,$(f))))
